@@ -72,6 +72,11 @@ def sticky_metadata(case):
             gen, parts = cl
             md = StickyPartitionAssignor._metadata(
                 topics, [TopicPartition(S.tname(t), p) for t, p in parts], gen)
+        # members of other client libraries / versions announce a newer subscription-metadata version
+        # (the user-data layout is the sticky assignor's own and does not depend on it)
+        ver = (case.get("mdver") or {}).get(str(m), 0)
+        if ver:
+            md = ConsumerProtocolMemberMetadata(ver, md.subscription, md.user_data)
         # over the wire and back
         md = ConsumerProtocolMemberMetadata.decode(md.encode())
         mm[S.mname(m)] = md
@@ -203,6 +208,8 @@ def run_chain(chain):
     rounds = []
     wl = bool(chain.get("log", 1))
     case = dict(chain["first"])
+    if chain.get("mdver"):
+        case["mdver"] = chain["mdver"]
     res = run_sticky(case, with_log=wl)
     rounds.append({"case": case, "sticky": res})
     gen = chain.get("gen0", 1)
@@ -213,6 +220,8 @@ def run_chain(chain):
         for m, a in res["out"]:
             last[m] = [gen, [[t, p] for t, ps in a for p in ps]]
         nxt = {"ppt": st["ppt"], "members": st["members"]}
+        if chain.get("mdver"):
+            nxt["mdver"] = chain["mdver"]
         nxt["claims"] = claims_from(res["out"], st["members"], gen)
         for idx, (m, _s) in enumerate(st["members"]):
             if nxt["claims"][idx] is None and m in (st.get("returning") or []) and m in last:
